@@ -144,6 +144,11 @@ func runC04(r *rec, idx int, seed int64) *hx.Result {
 		}
 	}
 	orig := append([]byte(nil), p.JSON()...)
+	// the event as any holder of its JSON has it (Sign / SetUnsigned on an event of a domainless room version
+	// return a PDU that lost the room-ID derivation: that is C03's finding, not re-reported here)
+	if p, err = impl.NewEventFromTrustedJSON(orig, false); err != nil {
+		return fail("C04/build/error", "the built event does not parse as trusted JSON: "+err.Error(), nil, err.Error())
+	}
 	var origID string
 	if pan := guard(func() { origID = p.EventID() }); pan != "" {
 		return fail("C04/panic/EventID", "EventID() of the built event panics: "+pan, nil, pan)
@@ -166,7 +171,7 @@ func runC04(r *rec, idx int, seed int64) *hx.Result {
 	}
 	// ---- redacted iff the content hash does not match ---------------------------------------------------------
 	if qe.Redacted() != r.Red {
-		return fail(fmt.Sprintf("C04/redacted/%s:model=%v", class, r.Red),
+		return fail(fmt.Sprintf("C04/redacted-flag/%s:model=%v", class, r.Red),
 			fmt.Sprintf("Redacted() of the parsed event (room version %s, tampering %v, hash %s)", r.Ver, sorted(r.T), r.HM), r.Red, qe.Redacted())
 	}
 	got, err := decodeObj(qe.JSON())
@@ -335,6 +340,8 @@ func accessorsAgree(r *rec, b *built, f *fields, p gmsl.PDU, got map[string]inte
 	wantAuth := refs("auth_events")
 	if isDomainless(r.Ver) && b.room != nil {
 		wantAuth = append([]string{"$" + b.room.id[1:]}, wantAuth...)
+	} else if isDomainless(r.Ver) {
+		wantAuth = []string{} // the create event reports no auth events
 	}
 	if !reflect.DeepEqual(wantAuth, f.Auth) {
 		return bad("AuthEventIDs", wantAuth, f.Auth)
